@@ -76,7 +76,7 @@ Proof. induction 1; simpl; auto. Qed.
 (* a call of a defun'd function: the arguments left to right, each once, then the body in a new frame whose
    parent is the scope the function was made in; nothing of the caller's scope is visible to the body *)
 Theorem call_args_once_ltr : forall m n st sc f es ps body csc v st',
-  find_fun (funs st) f = Some (VClo ps body csc) -> List.length ps = List.length es ->
+  find_fun (funs st) f = Some (VClo ps [] body csc) -> List.length ps = List.length es ->
   (eval m (S n) st sc (ECall f es) = (Ok v, st') <->
    exists vs st1, args_ltr m (eval m n) sc st es vs st1 /\
      ev_seq (eval m n) (snd (alloc st1 (mk_frame ps vs))) ((List.length (frames st1), List.length (mk_frame ps vs)) :: csc) body VNil = (Ok v, st')).
@@ -85,9 +85,9 @@ Proof.
   split.
   - destruct (ev_args m (eval m n) st sc es) as [[vs|er] st1] eqn:E; [|discriminate].
     apply ev_args_ltr in E. pose proof (args_ltr_length _ _ _ _ _ _ _ E) as L.
-    simpl. rewrite Hlen, <- L, Nat.ltb_irrefl. simpl. intros H. exists vs, st1. split; [exact E|exact H].
+    unfold apply_fn. simpl. rewrite Nat.add_0_r, app_nil_r, Hlen, <- L, Nat.ltb_irrefl. simpl. intros H. exists vs, st1. split; [exact E|exact H].
   - intros (vs & st1 & E & H). pose proof (args_ltr_length _ _ _ _ _ _ _ E) as L.
-    apply ev_args_ltr in E. rewrite E. simpl. rewrite Hlen, <- L, Nat.ltb_irrefl. simpl. exact H.
+    apply ev_args_ltr in E. rewrite E. unfold apply_fn. simpl. rewrite Nat.add_0_r, app_nil_r, Hlen, <- L, Nat.ltb_irrefl. simpl. exact H.
 Qed.
 
 Theorem funcall_order : forall m n st sc f es v st',
@@ -229,13 +229,13 @@ Proof.
       let '(f, st2) := alloc st1 fr in ev_seq (eval Ref n) st2 ((f, List.length fr) :: sc) body VNil)) in *.
   rewrite ev_inits_args_ref in *.
   change (ev_args Ref (eval Ref (S n)) st sc (ELambda (map fst bs) body :: map snd bs)) with
-    (bind (ev_args Ref (eval Ref (S n)) st sc (map snd bs)) (fun vs st2 => (Ok (VClo (map fst bs) body sc :: vs), st2))).
+    (bind (ev_args Ref (eval Ref (S n)) st sc (map snd bs)) (fun vs st2 => (Ok (VClo (map fst bs) [] body sc :: vs), st2))).
   assert (G : fst (ev_args Ref (eval Ref n) st sc (map snd bs)) <> Er EFuel).
   { intro C. apply H. unfold bind. destruct (ev_args Ref (eval Ref n) st sc (map snd bs)) as [[a|e] s]; simpl in *; congruence. }
   rewrite (ev_args_mono Ref n (S n)) by (auto; lia).
   unfold bind in *. destruct (ev_args Ref (eval Ref n) st sc (map snd bs)) as [[vs|er] st1] eqn:E; [|reflexivity].
   pose proof (ev_args_length _ _ _ _ _ _ _ E) as L. rewrite map_length in L.
-  simpl. rewrite map_length, L, Nat.ltb_irrefl. simpl in *.
+  unfold apply_fn. simpl. rewrite Nat.add_0_r, app_nil_r, map_length, L, Nat.ltb_irrefl. simpl in *.
   apply (ev_seq_mono Ref n (S n)); [lia|exact H].
 Qed.
 
